@@ -768,14 +768,25 @@ def candidates(ws, holder, ep):
     return out
 
 
-def invoke(ws, holder, ep, tag):
-    """Run the candidate `tag` of the entry point. -> outcome "ok" | "refused:<Class>"; raises NotExercisable."""
+def invoke(ws, holder, ep, tag, memo=None):
+    """Run the candidate `tag` of the entry point. -> outcome "ok" | "refused:<Class>"; raises NotExercisable.
+    For a setter, memo (a dict) receives the holder, the attribute name and the exact value that was assigned."""
     from geoh5py.workspace import Workspace
     try:
-        cands = candidates(ws, holder, ep)
+        if ep["kind"] == "set":
+            vals = dict(setter_candidates(ws, holder, ep["name"]))
+            if tag not in vals:
+                raise NotExercisable(f"no candidate {tag}")
+            value = vals[tag]
+            if memo is not None:
+                memo.update(holder=holder, name=ep["name"], value=value)
+            thunk = lambda: setattr(holder, ep["name"], value)  # noqa: E731
+        else:
+            thunk = dict(candidates(ws, holder, ep)).get(tag)
+    except NotExercisable:
+        raise
     except Exception as exc:  # the generic argument itself cannot be computed in this state
         raise NotExercisable(f"arguments: {type(exc).__name__}") from exc
-    thunk = dict(cands).get(tag)
     if thunk is None:
         raise NotExercisable(f"no candidate {tag}")
     try:
@@ -790,6 +801,36 @@ def invoke(ws, holder, ep, tag):
     if inspect.isgenerator(res):
         res.close()
     return "ok"
+
+
+def repeat(memo):
+    """The identical assignment once more (same holder object, same value object)."""
+    try:
+        setattr(memo["holder"], memo["name"], memo["value"])
+    except Exception as exc:  # pylint: disable=broad-except
+        return f"refused:{type(exc).__name__}"
+    return "ok"
+
+
+def _same(a, b):
+    """Is the value a fresh reader shows the value that was assigned?"""
+    try:
+        if hasattr(a, "uid") and hasattr(b, "uid"):
+            return a.uid == b.uid
+        if isinstance(a, np.ndarray) or isinstance(b, np.ndarray):
+            a, b = np.asarray(a), np.asarray(b)
+            if a.dtype.names or b.dtype.names:
+                return a.shape == b.shape and a.tolist() == b.tolist()
+            if a.dtype.kind in "fc" and b.dtype.kind in "fciu":
+                return a.shape == b.shape and bool(np.array_equal(a, b, equal_nan=True))
+            return a.shape == b.shape and bool(np.array_equal(a, b))
+        if isinstance(a, dict) and isinstance(b, dict):
+            return a.keys() == b.keys() and all(_same(a[k], b[k]) for k in a)
+        if isinstance(a, (list, tuple)) and isinstance(b, (list, tuple)):
+            return len(a) == len(b) and all(_same(x, y) for x, y in zip(a, b))
+        return bool(a == b)
+    except Exception:  # pylint: disable=broad-except
+        return False
 
 
 # ----------------------------------------------------------------------------------------- classification in r+
@@ -866,8 +907,49 @@ def classify(item):
         return _x(ep, results[-1][3])
     oks = [r for r in done if r[1] == "ok"]
     pick = oks[0] if oks else done[0]
+    if ep["kind"] == "set" and pick[1] == "ok" and classify_deferred((fixture, digest0, ep, pick[0])):
+        return {"id": ep["id"], "cls": "W", "tag": pick[0], "rplus_out": "ok", "note": "deferred"}
     cls = "G" if (ep["kind"] == "get" and pick[1] == "ok") else "N"
     return {"id": ep["id"], "cls": cls, "tag": pick[0], "rplus_out": pick[1], "note": ""}
+
+
+def classify_deferred(item):
+    """Setters whose write is deferred to Workspace.close (concatenated entities: concatenator.py update_attributes ->
+    update_concatenated_attributes, persisted by the final save): item = (fixture, digest0, ep, tag).  The setter is
+    'mutating (deferred)' iff, in mode r+, after the assignment and a regular close the content of the file has changed
+    AND a fresh read-only workspace shows the assigned value through the same attribute.  (A memory-only setter such as
+    `uid`, whose effect merely leaks into the final re-save, does not qualify.)"""
+    from geoh5py import Workspace
+    from .pool import scratch
+    fixture, digest0, ep, tag = item
+    work = os.path.join(scratch(), "c10_classify.geoh5")
+    shutil.copyfile(fixture, work)
+    sha0 = sha_file(work)
+    ws = Workspace(work, mode="r+")
+    memo = {}
+    try:
+        holder = resolve(ws, ep["loc"])
+        if holder is None or invoke(ws, holder, ep, tag, memo) != "ok":
+            return False
+        ws.close()
+    except Exception:  # pylint: disable=broad-except
+        return False
+    finally:
+        _release(ws)
+    if not _changed(work, sha0, digest0):
+        return False
+    ws = None
+    try:
+        ws = Workspace(work, mode="r")
+        holder = resolve(ws, ep["loc"])
+        if holder is None:
+            return False
+        return _same(getattr(holder, ep["name"]), memo["value"])
+    except Exception:  # pylint: disable=broad-except
+        return False
+    finally:
+        if ws is not None:
+            _release(ws)
 
 
 def classify_getters(item):
